@@ -141,6 +141,9 @@ fn fmt_or_skip(env: &Env, src: &str, cfg: &Cfg) -> Result<String, Verdict> {
     }
 }
 
+/// (width, blank_lines_upper_bound) pairs of the corpus sweep's third part
+const BLANK_SWEEP: [(usize, usize); 12] = [(0, 0), (40, 0), (80, 0), (120, 0), (0, 1), (40, 1), (80, 1), (120, 1), (0, 3), (40, 3), (80, 3), (120, 3)];
+
 fn labels_for(st: &mut Stats, c: &SrcCase, root: &SyntaxNode, out: &str) {
     st.label(&format!("origin:{}", c.origin));
     st.label_if(out != c.src, "output-differs-from-input");
@@ -219,7 +222,7 @@ impl Prop for SrcProp {
     }
 
     fn rule(&self) -> String {
-        let common = "Cases = deterministic sweep of the vendored fixture corpus (whole files and paragraph snippets) over a width x indent grid the test-suite never uses, plus proptest-generated tapes decoded into (source, config): G1 grammar generator (markup/code/math with layout phase), G2 corpus mutators, G0 picks; configs from G6 (widths 0/1/small/40/80/120/uniform/huge/width-targeted, tab 1..8). Only text the Typst parser accepts is kept (rejected is counted). ";
+        let common = "Cases = deterministic sweep of the vendored fixture corpus (whole files and paragraph snippets) over a width x indent grid the test-suite never uses, plus proptest-generated tapes decoded into (source, config): G1 grammar generator (markup/code/math with layout phase), G2 corpus mutators, G0 picks; configs from G6 (widths 0/1/small/40/80/120/uniform/huge/width-targeted, tab 1..8, blank_lines_upper_bound 2 in four cases of five, else 0/1/3/4..9/2^20; the sweep adds bounds 0, 1, 3 at four widths). Blanks in code and math are drawn from all Unicode White_Space characters. Only text the Typst parser accepts is kept (rejected is counted). ";
         let specific = match self.which {
             Which::C01 => "Oracle: N(parse(in)) == N(parse(fmt(in))) for the Typst-semantic normal form N. Non-trivial: fmt(in) != in and the input has >= 3 inner nodes.",
             Which::C03 => "Oracle: fmt(fmt(x)) == fmt(x) byte for byte. Non-trivial: first pass changed the text and the output has more lines than the input or contains a comment.",
@@ -256,7 +259,7 @@ impl Prop for SrcProp {
         let (w, t) = self.grid(env.tier);
         let items = self.sweep_items(env).len();
         let reorder = matches!(self.which, Which::C01 | Which::C03) as usize;
-        items * w.len() * t.len() + reorder * self.sweep_items_import(env).len() * w.len()
+        items * w.len() * t.len() + reorder * self.sweep_items_import(env).len() * w.len() + items * BLANK_SWEEP.len()
     }
 
     fn sweep_case(&self, i: usize, env: &Env) -> Option<SrcCase> {
@@ -264,19 +267,27 @@ impl Prop for SrcProp {
         let items = self.sweep_items(env);
         let per = w.len() * t.len();
         let main = items.len() * per;
+        let reorder_part = if matches!(self.which, Which::C01 | Which::C03) { self.sweep_items_import(env).len() * w.len() } else { 0 };
+        let mut blank = 2;
         let (item, width, tab, reorder) = if i < main {
             let it = items[i / per];
             let r = i % per;
             (it, w[r / t.len()], t[r % t.len()], false)
-        } else {
+        } else if i < main + reorder_part {
             let j = i - main;
             let imp = self.sweep_items_import(env);
             (imp[j / w.len()], w[j % w.len()], 2, true)
+        } else {
+            // the blank-line bound (no CLI flag, never set by the test-suite): 0, 1 and 3 at four widths
+            let j = i - main - reorder_part;
+            let (wd, b) = BLANK_SWEEP[j % BLANK_SWEEP.len()];
+            blank = b;
+            (items[j / BLANK_SWEEP.len()], wd, 2, false)
         };
         let it = &env.corpus.items[item];
         let mut c = SrcCase {
             src: it.text.clone(),
-            cfg: Cfg { width, tab, reorder, blank: 2 },
+            cfg: Cfg { width, tab, reorder, blank },
             range: None,
             origin: if it.whole { "G0f".into() } else { "G0s".into() },
         };
